@@ -537,12 +537,17 @@ def gen_cell_option(rng):
     '''Free-standing option strings (beyond those of the generated decks).'''
     parts = []
     pool = ['imp', 'fill', 'fillarr', 'lat', 'trcl', 'u', 'rho', 'junk',
-            'starfill', 'startrcl', 'imp2']
+            'starfill', 'startrcl', 'imp2', 'imp3', 'imp4']
     for kind in rng.sample(pool, rng.randint(1, 4)):
         if kind == 'imp':
             parts.append(f'imp:n={rng.choice(["1", "0", "2.5", "1e1", "x"])}')
         elif kind == 'imp2':
             parts.append(f'imp:n,p={rng.choice(["1", "4"])}')
+        elif kind == 'imp3':
+            # a second entry for the same particle replaces the first
+            parts.append(f'imp:n={rng.choice(["0", "3", "0.5"])}')
+        elif kind == 'imp4':
+            parts.append(f'imp:p,e={rng.choice(["2", "0"])}')
         elif kind == 'fill':
             k = rng.choice([0, 0, 1, 2, 3, 4, 5, 6, 9, 12, 13, 14])
             tr = G.filler_params(k, rng)
